@@ -85,6 +85,19 @@ pub trait Harness: Sync {
     fn expected_probes(&self) -> Vec<&'static str> {
         Vec::new()
     }
+    /// Budget of the minimiser: (executions, wall time).
+    fn minimise_budget(&self) -> (u64, Duration) {
+        (2000, Duration::from_secs(30))
+    }
+    /// When a violation found in a worker does not reproduce from its own
+    /// scenario in a pristine execution, the cause may lie in what the worker
+    /// process executed *before* (state that leaks through the process itself).
+    /// A harness that can express "these earlier scenarios, then this one" as
+    /// one scenario returns it here, so that the finding still gets a replay
+    /// file that reproduces on its own.
+    fn combine(&self, _earlier: &[Self::Scenario], _current: &Self::Scenario) -> Option<Self::Scenario> {
+        None
+    }
 }
 
 #[derive(Serialize, Deserialize, Clone, Debug)]
@@ -509,6 +522,7 @@ fn worker<H: Harness>(h: &H, args: &Args) -> i32 {
     let mut all: BTreeSet<u64> = BTreeSet::new();
     let mut index = from;
     let mut since_check = 0u32;
+    let mut recent: std::collections::VecDeque<H::Scenario> = std::collections::VecDeque::new();
     while index < total {
         since_check += 1;
         if since_check >= 16 || start.elapsed().as_secs() >= soft_s {
@@ -560,19 +574,45 @@ fn worker<H: Harness>(h: &H, args: &Args) -> i32 {
         }
         if let Some(v) = &out.violation {
             // Minimise, then classify against the known findings.
-            let (msc, mch, mout, execs) = minimise(
-                h,
-                &sc,
-                &out.choices,
-                &v.clause,
-                2000,
-                Duration::from_secs(30),
-            );
-            let reproducible = mout
+            let (bx, bt) = h.minimise_budget();
+            let (msc, mch, mout, execs) = minimise(h, &sc, &out.choices, &v.clause, bx, bt);
+            let mut reproducible = mout
                 .violation
                 .as_ref()
                 .map(|x| x.clause == v.clause)
                 .unwrap_or(false);
+            let (mut msc, mut mch, mut mout, mut execs) = (msc, mch, mout, execs);
+            if !reproducible {
+                // Escalate: the same scenario preceded by what this worker ran before it.
+                let earlier: Vec<H::Scenario> = recent.iter().cloned().collect();
+                let mut k = 1usize;
+                while k <= earlier.len() {
+                    if let Some(comb) = h.combine(&earlier[earlier.len() - k..], &sc) {
+                        let o = exec(h, &comb, Chooser::replay(out.choices.clone()), false);
+                        execs += 1;
+                        if o.violation.as_ref().map(|x| x.clause == v.clause).unwrap_or(false) {
+                            let r = minimise(h, &comb, &o.choices, &v.clause, bx, bt);
+                            msc = r.0;
+                            mch = r.1;
+                            mout = r.2;
+                            execs += r.3;
+                            reproducible = mout
+                                .violation
+                                .as_ref()
+                                .map(|x| x.clause == v.clause)
+                                .unwrap_or(false);
+                            *sum.stats.entry("violation_needed_earlier_histories".to_string()).or_insert(0) += 1;
+                            break;
+                        }
+                    } else {
+                        break;
+                    }
+                    if k == earlier.len() {
+                        break;
+                    }
+                    k = (k * 2).min(earlier.len());
+                }
+            }
             if !reproducible {
                 sum.error = Some(format!(
                     "run index {} violated clause {} but does not replay from its own record (nondeterminism in the harness): {}",
@@ -603,6 +643,10 @@ fn worker<H: Harness>(h: &H, args: &Args) -> i32 {
                 let _ = std::fs::write(&stop_path, b"stop");
                 break;
             }
+        }
+        recent.push_back(sc);
+        if recent.len() > 64 {
+            recent.pop_front();
         }
         index += stride;
     }
